@@ -3,7 +3,7 @@ C16 (broken pipe wrapper), plus the flush-layer rule R12.3 shared with C12/C15."
 import re
 
 from engine import rule, AnchorLost
-from model import strace_deep, Super, PathSens, strace, carriers, switches_on_carriers, fn_of, trace, is_place, site, const_value
+from model import strace_deep, Super, PathSens, strace, carriers, switches_on_carriers, fn_of, trace, is_place, site, const_value, kind_tests
 import common
 import tables
 
@@ -267,16 +267,12 @@ def wrapper_impl(facts):
 
 def _check_like(binc, callee):
     """A function over an io::Result that looks at the error's kind: takes a Result<_, io::Error> as its first
-    argument, returns the same type, and compares an ErrorKind somewhere in its (inlined) body."""
+    argument, returns the same type, and asks for the error's kind() somewhere in its (inlined) body."""
     if callee.nargs < 1 or not callee.local_ty(1).startswith("std::result::Result<") or "std::io::Error" not in callee.local_ty(1):
         return False
     if callee.local_ty(0) != callee.local_ty(1):
         return False
-    for _, _, t in Super(binc, callee, depth=2).calls():
-        f = fn_of(t) or {}
-        if f.get("trait") == "std::cmp::PartialEq" and "ErrorKind" in f.get("self_ty", ""):
-            return True
-    return False
+    return any((fn_of(t) or {}).get("def") == "std::io::Error::kind" for _, _, t in Super(binc, callee, depth=2).calls())
 
 
 def _wrapper_methods(ctx):
@@ -389,46 +385,25 @@ def r16_2(ctx):
         sup = Super(binc, c, depth=3)
         ps = PathSens(sup)
         calls = sup.calls()
-        # the BrokenPipe comparison, wherever the check keeps it (inline or in a helper predicate)
-        cmps = []
-        for n, b, t in calls:
-            f = fn_of(t) or {}
-            if f.get("trait") == "std::cmp::PartialEq" and "ErrorKind" in f.get("self_ty", "") and f.get("name") in ("eq", "ne"):
-                variants, others = [], []
-                for a in t["args"]:
-                    tr = strace(sup, n, a)
-                    if tr.origin and tr.origin[0] == "const":
-                        variants.append(tr.origin[1].get("ref_variant") or tr.origin[1].get("variant"))
-                    else:
-                        others.append(tr)
-                cmps.append((n, b, t, variants, others))
-        ok = len(cmps) == 1 and cmps[0][3] == ["BrokenPipe"] and len(cmps[0][4]) == 1
-        ctx.ob("kind-compared-with-BrokenPipe", ok, site(c), f"ErrorKind comparisons: {[x[3] for x in cmps]}")
+        # the BrokenPipe test, wherever the check keeps it (inline or in a helper predicate) and however it is
+        # spelled (`==`, `!=`, `matches!`, `match`)
+        tests = kind_tests(sup)
+        named = [kt.named() for kt in tests]
+        ok = len(tests) == 1 and named[0] == ["BrokenPipe"]
+        ctx.ob("kind-compared-with-BrokenPipe", ok, site(c), f"ErrorKind tests: {named}")
         if not ok:
             continue
-        n, b, t, _, others = cmps[0]
-        ktr = others[0]
-        kcall = ktr.origin[2] if ktr.origin and ktr.origin[0] == "call" else None
-        kf = fn_of(kcall) if kcall else None
-        kind_ok = bool(kf and kf["def"] == "std::io::Error::kind")
-        if kind_ok:
-            knode = (ktr.origin_node[0], ktr.origin[1])
-            ptr = strace(sup, knode, kcall["args"][0])
-            kind_ok = bool(ptr.origin and ptr.origin[0] == "arg" and ptr.origin[1] == 1 and not ptr.origin_node[0] and any(s[0] == "downcast" and s[1] == "Err" for s in ptr.steps))
+        kt = tests[0]
+        n, kcall = kt.kind_node, kt.kind_call
+        ptr = strace(sup, n, kcall["args"][0])
+        kind_ok = bool(ptr.origin and ptr.origin[0] == "arg" and ptr.origin[1] == 1 and not ptr.origin_node[0] and any(s[0] == "downcast" and s[1] == "Err" for s in ptr.steps))
         ctx.ob("kind-of-the-argument-error", kind_ok, sup.site(n), "compares kind() of the Err payload of the checked result" if kind_ok else "the compared kind is not that of the checked result's error")
-        # the edge taken when the comparison holds
-        carr = carriers(sup, n, t["dest"]["l"])
-        sws = [(sn, st) for sn, st, how in switches_on_carriers(sup, carr) if how == "value"]
-        ctx.ob("comparison-branched-on", len(sws) == 1, sup.site(n), f"{len(sws)} branch(es) on the comparison result")
-        if len(sws) != 1:
+        sn = kt.node
+        bp = [(lab, dst) for lab, dst, ks in kt.edges if ks == {"BrokenPipe"}]
+        ctx.ob("comparison-branched-on", len(bp) == 1, sup.site(sn), f"{len(bp)} edge(s) taken exactly for BrokenPipe")
+        if len(bp) != 1:
             continue
-        sn, sw = sws[0]
-        zero = [x for v_, x in sw["targets"] if v_ == 0]
-        holds_is_otherwise = fn_of(t)["name"] == "eq"
-        if holds_is_otherwise:
-            edge = (sn, "otherwise", (sn[0], sw["otherwise"]))
-        else:
-            edge = (sn, 0, (sn[0], zero[0])) if zero else None
+        edge = (sn, bp[0][0], bp[0][1])
         entry_states = ps.explore([(sup.entry, {})])
 
         def reach_edge(e, removed=()):
